@@ -21,7 +21,7 @@ META = {
         "division in user-written code is dominated by a non-zero test on the very divisor (or the divisor comes from an iterator "
         "filtered on `> 0`, or is audited with the invariant that makes it non-zero), and the 30-day cumulative ratio is only ever "
         "multiplied/divided by ratios tested non-zero. "
-        "R5 also: every guard between a line and an error push is the loop, the variant switch or a sign test (no field check hides behind an unrelated condition). Decides shapes on all paths/sites; does not run inputs, does not decide termination. R4 also treats an output function handed to a combinator as a fn item (`path.map(File::create)`) as an output call at that site. R7: in the calculation and the front-ends no `Result` of a workspace function is handed to `.ok()`/`.unwrap_or*()`/`.is_ok()`/`.map_or*()` — a refusal is never turned into an absence (no partial report)."),
+        "R5 also: every guard between a line and an error push is the loop, the variant switch or a sign test (no field check hides behind an unrelated condition). Decides shapes on all paths/sites; does not run inputs, does not decide termination. R4 also treats an output function handed to a combinator as a fn item (`path.map(File::create)`) as an output call at that site. R7: in the calculation and the front-ends no `Result` of a workspace function is handed to `.ok()`/`.unwrap_or*()`/`.is_ok()`/`.map_or*()` — a refusal is never turned into an absence (no partial report). R7 also lists Iterator::flat_map / flatten over Result items of a workspace error type. R2 recognisers: an index guard must speak about the indexed container; scan helpers are followed across the call (caller-side guard, counter summaries)."),
     "trusted_base": [
         "rustc MIR with overflow checks on (dev profile); callee resolution by Instance::try_resolve",
         "panic behaviour of std/chrono/rust_decimal APIs as listed in lib/panics.py PANIC_CALLEES",
